@@ -144,7 +144,7 @@ def run_history(hist, overlap=None, ch=None, short=False):
     return fs, ids, marks, rets
 
 
-def recover(files):
+def recover(files, short_ch=None):
     """Fresh process over the crash snapshot: load(), get() of everything listed, then a fresh Queue."""
     import slimta.diskstorage as ds
     from slimta.queue import Queue
@@ -152,6 +152,7 @@ def recover(files):
     with World(Chooser(), uuid_modules=UUID_MODULES, max_steps=50000) as w:
         fs = memfs.MemFS(files=files)
         memfs.bind(w, fs, chunk_size=48)
+        fs.short_chooser = short_ch        # the restarted process may see short aio completions too
         st = ds.DiskStorage('/q/env', '/q/meta', '/q/tmp')
 
         def body():
@@ -520,6 +521,20 @@ def run_config(cfg, tier, seed):
             return tuple(ch.choices)
         st = explore(run, d=cfg['d'], dd=None, merge=False, max_exec=3000)
         res.count('short_completion_schedules', st.executions)
+        # ... and short completions while the restarted process reads the directory the finished history left behind
+        fs0, ids0, marks0, rets0 = run_history(hist)
+        n0 = len(fs0.log)
+
+        def run2(ch):
+            rec = recover(fs0.snapshot(n0), short_ch=ch)
+            res.evaluations += 1
+            viols, inside = judge_crash(hist, ids0, marks0, n0, rec)
+            for sig, msg in viols:
+                res.violation(dict(sig, during='recovery-with-short-reads'), 'history %r, all operations finished, restart with short aio reads (choices %r): %s'
+                              % (hist, list(ch.choices), msg), {'hist': [list(o) for o in hist], 'overlap': None, 'choices': list(ch.choices), 'k': n0, 'recover_short': True})
+            return repr(rec['load'])[:100]
+        st2 = explore(run2, d=cfg['d'], dd=None, merge=False, max_exec=3000)
+        res.count('short_recovery_schedules', st2.executions)
         if st.cap_hit:
             res.caps.append(st.cap_hit)
         res.sample({'history': hist, 'short_aio_completions': st.executions})
@@ -569,6 +584,13 @@ def replay(rep):
             return True, res.violations[0]['message']
         return False, 'every crash state of the queue run recovers what the queue owes'
     hist = [tuple(o) for o in rep['hist']] if rep.get('hist') else None
+    if rep.get('recover_short'):
+        fs0, ids0, marks0, rets0 = run_history(hist)
+        rec = recover(fs0.snapshot(rep['k']), short_ch=Chooser(rep['choices']))
+        viols, inside = judge_crash(hist, ids0, marks0, rep['k'], rec)
+        if viols:
+            return True, viols[0][1]
+        return False, 'the restarted process finds every message although some aio reads completed short'
     if rep.get('k', 0) == -1:
         fs, ids, marks, rets = run_history(hist)
         err = conformance(hist, fs, ids, rets)
